@@ -56,7 +56,6 @@ func checkC09(p *Program, r *Reporter) {
 		return true, ""
 	}
 	isNow := func(v ssa.Value) bool { return localDependsOnParam(p, v, nowPrm) }
-	ff := factsOf(wcs)
 	// the error of the segment generator
 	var genErr ssa.Value
 	var genCall *ssa.Call
@@ -73,7 +72,15 @@ func checkC09(p *Program, r *Reporter) {
 	r.Rule("E5-PACING", "every path to a chunk write passes the true edge of chunk-end < now (roles and dependences checked) or a sleep for the remaining time", 1)
 	r.Rule("E5-AFTERGEN", "chunks are written only after the segment generator (availability test included) succeeded", 1)
 	nWrites := 0
-	for _, b := range wcs.Blocks {
+	var clusterBlocks []*ssa.BasicBlock
+	for _, cf := range cluster(wcs) {
+		if cf == wc {
+			continue
+		}
+		clusterBlocks = append(clusterBlocks, cf.Blocks...)
+	}
+	for _, b := range clusterBlocks {
+		_ = b
 		for idx, in := range b.Instrs {
 			c, ok := in.(*ssa.Call)
 			if !ok || c.Call.StaticCallee() != wc {
@@ -131,12 +138,23 @@ func checkC09(p *Program, r *Reporter) {
 				}
 				return false, ""
 			}
-			var header *ssa.BasicBlock
-			for d := b.Idom(); d != nil; d = d.Idom() {
-				if loopExitTest(d) && naturalLoop(d)[b] {
-					header = d
+			// the pacing loop: the innermost loop around the write, in this function or around the (unique) call of it
+			headerOf := func(x *ssa.BasicBlock) *ssa.BasicBlock {
+				for d := x.Idom(); d != nil; d = d.Idom() {
+					if loopExitTest(d) && naturalLoop(d)[x] {
+						return d
+					}
+				}
+				return nil
+			}
+			header := headerOf(b)
+			for fn := b.Parent(); header == nil; {
+				site := uniqueCallSite(fn)
+				if site == nil {
 					break
 				}
+				header = headerOf(site.Block())
+				fn = site.Parent()
 			}
 			okPace, why := true, "every path to the write passes 'chunk end < now' or a sleep for the remaining time"
 			if header == nil {
@@ -158,6 +176,13 @@ func checkC09(p *Program, r *Reporter) {
 					}
 					onPath[x] = true
 					defer delete(onPath, x)
+					if len(x.Preds) == 0 {
+						// entry of a helper: continue before its (unique) call
+						if site := uniqueCallSite(x.Parent()); site != nil {
+							return back(site.Block(), instrIndex(site.(ssa.Instruction)))
+						}
+						return false
+					}
 					for _, pr := range x.Preds {
 						if ec, ok := edgeCond(pr, x); ok {
 							if v, w := validCond(ec); v {
@@ -183,7 +208,7 @@ func checkC09(p *Program, r *Reporter) {
 			// (d)
 			okGen := false
 			if genErr != nil {
-				for _, cd := range ff.dominatingConds(b) {
+				for _, cd := range effectiveDomConds(b) {
 					if is, nonNilOnTrue := nilTest(cd.V, genErr); is && nonNilOnTrue != cd.Pos {
 						okGen = true
 					}
